@@ -27,6 +27,8 @@ structure Cfg.Good (c : Cfg) : Prop where
   vwc : c.valueWithoutClassRaises = true
   pid0 : c.pid0Refused = true
   empty : c.emptyAsksAll = some 1024
+  /-- … and not for `range(len(per_cpu_times()))`, which misses eligible CPUs whose id is ≥ the number of `cpuN` lines -/
+  count : c.emptyAsksCount = false
   sorted : c.getSortedSet = true
   /-- getpriority(2) may legitimately return −1: errno must be cleared first and be part of the test -/
   prio : c.prioGet.clears = true ∧ c.prioGet.test ≠ .sentinelOnly
